@@ -29,7 +29,12 @@ from vlib.runner import Discard, Facet, Prop, Violation, require
 
 def is_untyped_int(U, l):
     d = build.udim(U, l)
-    return d.get("dtype") is None and isinstance(d["items"][0], int)
+    return d.get("dtype") is None and all(isinstance(i, int) for i in d["items"])
+
+
+def is_mixed(U, l):
+    d = build.udim(U, l)
+    return d.get("dtype") is None and len({type(i) for i in d["items"]}) > 1
 
 
 def values_mistakable_for_items(U, letters, df):
@@ -72,6 +77,21 @@ def run_export(desc):
     U, xd = desc["universe"], desc["x"]
     x = build.array(U, xd)
     mx = build.marr(U, xd)
+    out = check_export(desc, x, mx)
+    require(build.snapshot(x) == build.snapshot(build.array(U, xd)), "to_df-modified-array", "")
+    if desc.get("again"):
+        # the same array object is exported again after its values were updated in place: the zero pattern (sparse)
+        # and every value must be those of the current contents
+        vals = [xd["vals"][(i * 7 + 3) % len(xd["vals"])] * (0.0 if i % 3 == 0 else 1.0) + (1.0 if i % 4 == 1 else 0.0) for i in range(len(xd["vals"]))]
+        xd2 = dict(xd, vals=vals)
+        x.values[...] = build.array_values(U, xd2)
+        check_export(desc, x, build.marr(U, xd2), pre="re-export-after-inplace-update-")
+        out["classes"].append("re-exported-after-update")
+    return out
+
+
+def check_export(desc, x, mx, pre=""):
+    U, xd = desc["universe"], desc["x"]
     letters = xd["letters"]
     names = [build.udim(U, l)["name"] for l in letters]
     dtc = desc.get("dim_to_columns")
@@ -82,17 +102,16 @@ def run_export(desc):
         wide_name, wide_items = build.udim(U, wl)["name"], build.udim(U, wl)["items"]
     recs = dfutil.df_records(df, names, wide_name, wide_items)
     m, dup = dfutil.records_to_map(recs, names)
-    require(not dup, "to_df-lists-entry-twice", str(dup[:2]))
+    require(not dup, pre + "to_df-lists-entry-twice", str(dup[:2]))
     exp = {key: float(v) for key, v in mx.data.items()}
     if desc["sparse"]:
         exp = {k: v for k, v in exp.items() if v != 0}
         m = {k: v for k, v in m.items() if not (v != v)}
-        require(set(m) == set(exp), "to_df-sparse-rows", f"rows {sorted(set(m) ^ set(exp), key=str)[:3]} differ")
+        require(set(m) == set(exp), pre + "to_df-sparse-rows", f"rows {sorted(set(m) ^ set(exp), key=str)[:3]} differ")
     else:
-        require(set(m) == set(exp), "to_df-rows", f"label tuples differ: {sorted(set(m) ^ set(exp), key=str)[:3]}")
+        require(set(m) == set(exp), pre + "to_df-rows", f"label tuples differ: {sorted(set(m) ^ set(exp), key=str)[:3]}")
     for k, v in exp.items():
-        require(m[k] == v, "to_df-value-under-wrong-label", f"{k}: {m[k]} vs {v}")
-    require(build.snapshot(x) == build.snapshot(build.array(U, xd)), "to_df-modified-array", "")
+        require(m[k] == v, pre + "to_df-value-under-wrong-label", f"{k}: {m[k]} vs {v}")
     return {"nontrivial": len(letters) >= 2, "classes": [f"index:{desc['index']}", "wide" if dtc else "long", "sparse" if desc["sparse"] else "dense"]}
 
 
@@ -107,7 +126,7 @@ def export_cases(draw):
         dtc = draw(st.sampled_from([None] + letters))
         if dtc is not None and draw(st.booleans()):
             dtc = build.udim(U, dtc)["name"]
-    return {"universe": U, "x": x, "index": draw(st.booleans()), "sparse": sparse, "dim_to_columns": dtc}
+    return {"universe": U, "x": x, "index": draw(st.booleans()), "sparse": sparse, "dim_to_columns": dtc, "again": draw(st.booleans())}
 
 
 class Export(Facet):
@@ -137,10 +156,14 @@ def run_roundtrip(desc):
         if lv and len(lv) < len(df.index.names):
             df = df.reset_index(level=lv)
             cl.append("levels-moved-to-columns")
-    if desc.get("perm_seed") is not None and len(df) > 1:
+    def permute(df):
+        # rows re-ordered the way users do it (df.sample / df.iloc[...]): the integer row labels travel with the rows
         order = np.random.RandomState(desc["perm_seed"]).permutation(len(df))
-        df = df.iloc[order]
         cl.append("rows-permuted")
+        return df.iloc[order]
+
+    if desc.get("perm_seed") is not None and len(df) > 1 and desc.get("perm_when", "before") == "before":
+        df = permute(df)
     if desc.get("letters_as_headers"):
         ren = {build.udim(U, l)["name"]: l for l in letters}
         df = df.rename(columns=ren)
@@ -161,6 +184,18 @@ def run_roundtrip(desc):
         if csv:
             df, _ = frames.through_csv(df, tmp)
             cl.append("csv")
+        if desc.get("perm_seed") is not None and len(df) > 1 and desc.get("perm_when") == "after":
+            df = permute(df)
+            cl.append("rows-permuted-after-csv")
+        if desc.get("labels_as_text"):
+            # labels of typed dimensions arrive in another type (ints as text, as after a header-less read)
+            for l in letters:
+                d_ = build.udim(U, l)
+                for cname in (d_["name"], l):
+                    if cname in df.columns and d_.get("dtype") == "int":
+                        df = df.assign(**{cname: df[cname].astype(str)})
+                        if "labels-as-text" not in cl:
+                            cl.append("labels-as-text")
         if am and len(df) == 0:
             raise Discard("sparse export of an all-zero array is an empty frame")
         if xd["mode"] == "float" and values_mistakable_for_items(U, letters, df):
@@ -183,6 +218,13 @@ def run_roundtrip(desc):
 @st.composite
 def roundtrip_cases(draw):
     U = draw(gen.universes(min_dims=draw(st.sampled_from([1, 2, 2, 3])), max_dims=3, max_len=5))
+    for d_ in U["dims"]:
+        if d_["dtype"] == "str" and draw(st.integers(0, 3)) == 0:
+            # str labels that look like numbers (years, codes): after CSV they come back as ints and are converted again
+            pool = ["2020", "1990", "2005", "1750", "3000", "2021"]
+            k0 = draw(st.integers(0, len(pool) - len(d_["items"])))
+            d_["items"] = list(draw(st.permutations(pool[k0 : k0 + len(d_["items"])])))
+            break
     mode = draw(st.sampled_from(["coded", "coded", "float"]))
     elems = None
     if mode == "float" and draw(st.booleans()):
@@ -202,8 +244,8 @@ def roundtrip_cases(draw):
             csv = False  # untyped int items do not survive as CSV header text
         if draw(st.booleans()):
             dtc = d["name"]
-    if csv and any(is_untyped_int(U, l) for l in letters) and False:
-        csv = False
+    if csv and any(is_mixed(U, l) for l in letters):
+        csv = False  # text cannot tell 101 from '101': labels of a dimension mixing both do not survive CSV
     desc = {
         "universe": U,
         "x": x,
@@ -218,6 +260,8 @@ def roundtrip_cases(draw):
         "target_order": list(draw(st.permutations(letters))),
         # the flag that tolerates gaps must change nothing when there are none
         "allow_missing_anyway": draw(st.integers(0, 3)) == 0,
+        "perm_when": draw(st.sampled_from(["before", "after"])),
+        "labels_as_text": draw(st.integers(0, 3)) == 0,
     }
     return desc
 
@@ -300,7 +344,7 @@ def run_rendered(desc):
 @st.composite
 def rendered_cases(draw):
     style = draw(st.sampled_from(["named", "named", "junk"]))
-    kinds = ("str", "int", "ustr", "uint")
+    kinds = ("str", "int", "ustr", "uint", "umixed")
     U, letters, layout = draw(c12.base_frames(max_dims=3, max_len=5, header_styles=("name", "letter") if style == "named" else ("name", "letter", "junk"), kinds=kinds))
     csv = draw(st.booleans())
     wide = layout.get("wide")
@@ -312,6 +356,8 @@ def rendered_cases(draw):
             layout["index"] = [l for l in layout["index"] if l != wide]
             layout["drop_single"] = [l for l in layout["drop_single"] if l != wide]
     if wide is not None and is_untyped_int(U, wide):
+        csv = False
+    if any(is_mixed(U, l) for l in letters):
         csv = False
     junk = [l for l in letters if layout["header"][l] == "junk" and l != wide and l not in layout["drop_single"]]
     if junk:
@@ -337,7 +383,7 @@ def rendered_cases(draw):
         desc["year_index"] = yl
         desc["csv"] = False
     # headerless file whose first row is consumed as column names (long format, dims found by items)
-    if wide is None and not junk and not layout["index"] and not layout["drop_single"] and not any(is_untyped_int(U, l) for l in letters) and draw(st.integers(0, 5)) == 0:
+    if wide is None and not junk and not layout["index"] and not layout["drop_single"] and not any(is_untyped_int(U, l) or is_mixed(U, l) for l in letters) and draw(st.integers(0, 5)) == 0:
         layout["col_order"] = None
         layout["header"] = {l: "junk" for l in letters}
         desc["noheader"] = True
